@@ -23,4 +23,14 @@ CHECKS = {
         'that observe the Router\'s settle calls; the Router\'s Ack()/Nack() return value is not observable.'),
   technique='Coq proof (exhaustive case analysis over the scripted behaviour space, polymorphic in the message type) + differential correspondence check on a real Router',
   design_ref='DESIGN.md section 7 C02'),
+ 'C05': dict(
+  text=('Theorems about two hand-written transition-system models of pubsub.go: (A) the per-subscription send protocol - for every buffer size, any number of '
+        'Sender goroutines, every consumer behaviour and every schedule at most one copy is in flight (invariant proof; unconditional for the repaired send loop, '
+        'refuted by a witness schedule for the pinned one = defect D13); (B) the registry protocol with RWMutex writer preference - the blocking-publish deadlock D9 '
+        'is a machine-checked reachable stuck state. Tied to the code on every run: the stamped hook log of random and forced concurrent scenarios is replayed label '
+        'by label on both models, and API-level acceptors (one in flight, blocking Publish returns only after Acks) judge the implementation histories.'),
+  note=('Trusted: Coq kernel + vm_compute; Go runtime semantics of mutex/RWMutex/channel/select as modelled; hook stamp discipline + Python mapper; Monitor.v acceptors. '
+        'Partial: "blocking Publish returns" is refuted in general (D9, known finding) and not yet proved under the side condition; per-publisher FIFO is checked on the implementation only.'),
+  technique='Coq proof (invariants over thread-level LTSs, refutation witnesses by vm_compute) + schedule-replay correspondence check + executable API acceptors',
+  design_ref='DESIGN.md section 7 C04/C05/C11/C07'),
 }
